@@ -117,7 +117,8 @@ def eval_name_selection(ctx, patterns, one_shot=False):
     """filter_names(targets, patterns) evaluated on named symbolic targets; returns (sorted names, duplicates?) or an error string."""
     from ..symeval import Obj, PureInterp, Raised, Unsupported
     fn = ctx.index.func("gwf.filtering:filter_names")
-    targets = [Obj("target", name=n) for n in NAME_WITNESS_TARGETS]
+    from .evalhelpers import target_obj
+    targets = [target_obj(ctx, name=n) for n in NAME_WITNESS_TARGETS]
     arg = iter(targets) if one_shot else targets
     try:
         got = PureInterp(ctx).call(fn, (arg, list(patterns)))
